@@ -1064,3 +1064,46 @@ func (t *Term) String() string {
 	sb.WriteByte(')')
 	return sb.String()
 }
+
+// Rebuild reconstructs a term of the same operator over new arguments,
+// re-running the simplifier.
+func (s *Store) Rebuild(t *Term, a []*Term) *Term {
+	switch t.Op {
+	case OpNot:
+		return s.Not(a[0])
+	case OpAnd:
+		return s.And(a[0], a[1])
+	case OpOr:
+		return s.Or(a[0], a[1])
+	case OpIte:
+		return s.Ite(a[0], a[1], a[2])
+	case OpEq:
+		return s.Eq(a[0], a[1])
+	case OpAdd, OpSub, OpMul, OpUDiv, OpURem, OpSDiv, OpSRem, OpBAnd, OpBOr, OpBXor, OpShl, OpLShr, OpAShr:
+		return s.Bin(t.Op, a[0], a[1])
+	case OpBNot:
+		return s.BNot(a[0])
+	case OpNeg:
+		return s.Neg(a[0])
+	case OpULt, OpULe, OpSLt, OpSLe:
+		return s.Cmp(t.Op, a[0], a[1])
+	case OpConcat:
+		return s.Concat(a[0], a[1])
+	case OpExtract:
+		return s.Extract(a[0], int(t.Val>>8), int(t.Val&0xff))
+	case OpZExt:
+		return s.ZExt(a[0], t.W)
+	case OpSExt:
+		return s.SExt(a[0], t.W)
+	case OpFEq, OpFLt, OpFLe:
+		return s.FCmp(t.Op, a[0], a[1])
+	case OpFIsNaN:
+		return s.FIsNaN(a[0])
+	case OpB2BV:
+		if a[0].IsConst() {
+			return s.Const(1, a[0].Val)
+		}
+		return s.intern(OpB2BV, 1, 0, "", a[0])
+	}
+	panic("Rebuild: unhandled op")
+}
